@@ -20,6 +20,13 @@ var c09Forms = []EscForm{
 	{Name: "ll", Tpl: "{%ll= $V %}", Fn: 2, Itr: 2},
 	{Name: "|linkEscape", Tpl: "{%= $V|linkEscape %}", Fn: 2, Itr: 1},
 	{Name: "region-raw", Fn: 1, Itr: 1, Region: "urlencode"},
+	// the short names of the modifiers, a tag without blanks, and a value that reaches the letter
+	// through another modifier (the letters come last, whatever stands before them)
+	{Name: "|ue", Tpl: "{%= $V|ue %}", Fn: 1, Itr: 1},
+	{Name: "|le", Tpl: "{%= $V|le %}", Fn: 2, Itr: 1},
+	{Name: "u-tight", Tpl: "{%u=$V%}", Fn: 1, Itr: 1},
+	{Name: "u<-default", Tpl: "{%u= nosuchvar|default($V) %}", Fn: 1, Itr: 1, MinIn: 1},
+	{Name: "l<-def", Tpl: "{%l= nosuchvar|def($V) %}", Fn: 2, Itr: 1, MinIn: 1},
 }
 
 var reURLAlphabet = regexp.MustCompile(`^([A-Za-z0-9\-._+]|%[0-9A-F]{2})*$`)
@@ -138,6 +145,9 @@ func runEscaperProperty(o *Options, prop string, forms []EscForm, oracle func(Es
 	var cases []*escCase
 	add := func(f EscForm, carrier string, in []byte) {
 		if f.MaxIn > 0 && len(in) > f.MaxIn {
+			return
+		}
+		if len(in) < f.MinIn {
 			return
 		}
 		if f.Region != "" {
